@@ -973,3 +973,97 @@ def timeout_at_failing_service_family(report, prop="C18", label="timeout-at-fail
     report.obligation("corr:" + label, "correspondence", ok, f"{len(scripts)} scripted connections, every response compared")
     report.obligation("mon:" + label, "monitor", mon, "an elapsed ack timeout is applied by the first service call at or after it, whatever else that call finds")
     return ok and mon
+
+
+def receive_maximum_resume_family(report, prop="C09", label="receive-maximum-resume"):
+    """a resumed session whose server announces a smaller Receive Maximum than the number of publishes the last connection left
+    unacknowledged, with every kind of operation at the head of the user queue: the retransmissions count against the new
+    Receive Maximum, whatever waits behind or beside them, also after acknowledgements trickle in."""
+    from gv import harness_batch, resp_fields, unhex
+    from walk import split_packets
+    scripts = []
+    heads = {"none": None,
+             "sub": "eng.sub t=2 | subscribe pid=0 sub=x662f30:1:0:0:0",
+             "unsub": "eng.unsub t=2 | unsubscribe pid=0 tf=x662f30",
+             "q0": "eng.pub t=2 | publish pid=0 topic=x712f30 qos=0 retain=0 payload=x00",
+             "q1": "eng.pub t=2 | publish pid=0 topic=x712f31 qos=1 retain=0 payload=x00"}
+    for drain in ("none", "one"):
+        for K, q in ((2, 1), (3, 1), (4, 1), (3, 2), (5, 1)):
+            for rm2 in sorted({1, 2, K - 1}):
+                if rm2 >= K:
+                    continue
+                for hk, head in heads.items():
+                    for head_first in (False, True):
+                        if head is None and head_first:
+                            continue
+                        sc = [f"eng.new v=5 policy=all drain={drain} pingto=0 resolver=none rmax=2 | ka=0 cid=x63 rejoin=always", "eng.open t=0 deadline=30000",
+                              "eng.svc t=0 cap=4096 prefill=0", "eng.wc t=0", "eng.data t=0 b=x2003000000"]
+                        sc += [f"eng.pub t=1 | publish pid=0 topic=x742f3{n} qos={q} retain=0 payload=x0{n}" for n in range(K)]
+                        sc += ["eng.svc t=1 cap=4096 prefill=0", "eng.wc t=1"]
+                        if head and head_first:
+                            sc.append(head)
+                        sc += ["eng.close t=2"]
+                        if head and not head_first:
+                            sc.append(head.replace("t=2", "t=3"))
+                        sc += ["eng.open t=3 deadline=30000", "eng.svc t=3 cap=4096 prefill=0", "eng.wc t=3", f"eng.data t=3 b=x200601000321{rm2:04x}"]
+                        for _ in range(K + 3):
+                            sc += ["eng.svc t=4 cap=4096 prefill=0", "eng.wc t=4"]
+                        if q == 1:
+                            sc += ["eng.data t=5 b=x40020001"]
+                            for _ in range(K + 3):
+                                sc += ["eng.svc t=6 cap=4096 prefill=0", "eng.wc t=6"]
+                        scripts.append((sc, rm2, K, q, hk, drain))
+    reqs, starts = [], []
+    for sc, *_ in scripts:
+        starts.append(len(reqs))
+        reqs.append("session.reset")
+        reqs += sc
+    impl = harness_batch(reqs)
+    model = driver_batch(reqs)
+    ok, mon, bad, mbad = True, True, 0, 0
+    for k, st in enumerate(starts):
+        end = starts[k + 1] if k + 1 < len(starts) else len(reqs)
+        sc, rm2, K, q, hk, drain = scripts[k]
+        report.case("|".join(reqs[st + 1:end]))
+        report.traces_validated += 1
+        report.count(label + ".head." + hk)
+        for i in range(st, end):
+            if canon(impl[i]) != canon(model[i]):
+                ok = False
+                if bad < 4:
+                    report.add_finding(Finding(prop, "corr:" + label, {"clause": "model-vs-impl", "verb": reqs[i].split(" ")[0]},
+                                               "receive-maximum-resume scenario: implementation and model disagree", reqs[st + 1:i + 1] + ["# impl:  " + impl[i][:300], "# model: " + model[i][:300]], has_input=False))
+                bad += 1
+                break
+        # the wire of the second connection: QoS>0 PUBLISH packets by packet id, minus those the server acknowledged
+        conn, stream, seen, inflight, resent = 0, b"", 0, set(), 0
+        for i in range(st, end):
+            qy = reqs[i]
+            if qy.startswith("eng.open"):
+                conn += 1
+                stream, seen, inflight = b"", 0, set()
+            if conn == 2 and qy.startswith("eng.data t=5 b=x4002"):
+                inflight.discard(int(qy[-4:], 16))
+            f, _ = resp_fields(impl[i])
+            if conn == 2 and f.get("bytes", "x") != "x":
+                stream += unhex(f["bytes"])
+                pkts, _, _ = split_packets(stream)
+                for first, body in pkts[seen:]:
+                    if first >> 4 == 3 and (first >> 1) & 3 > 0:
+                        tl = (body[0] << 8) | body[1]
+                        inflight.add((body[2 + tl] << 8) | body[3 + tl])
+                        resent += 1
+                seen = len(pkts)
+                if len(inflight) > rm2:
+                    mon = False
+                    if mbad < 6:
+                        report.add_finding(Finding(prop, "mon:" + label, {"clause": "receive-maximum-exceeded", "head": hk, "drain": drain},
+                                                   f"{len(inflight)} QoS>0 publishes (packet ids {sorted(inflight)}) are unacknowledged on a connection whose server announced Receive Maximum {rm2}",
+                                                   reqs[st + 1:i + 1] + ["# impl: " + impl[i][:200]]))
+                    mbad += 1
+                    break
+        report.count(label + ".retransmitted", resent)
+    report.count(label + ".scenarios", len(scripts))
+    report.obligation("corr:" + label, "correspondence", ok, f"{len(scripts)} scripted resumed sessions, every response compared")
+    report.obligation("mon:" + label, "monitor", mon, "unacknowledged QoS>0 publishes on the resumed connection never exceed the Receive Maximum of its CONNACK")
+    return ok and mon
